@@ -64,6 +64,7 @@ def run(ctx: Ctx) -> None:
         n_rand -= 1
         cases.append((d, rng.randrange(0, 5), rng.choice(EOLS)))
 
+    cases = ctx.select("Tag.get_html_string (validly nested trees)", cases)
     spec = run_model([[4, to_sx(d), i, S(eol)] for d, i, eol in cases])
     spec_of = {}
     for c, m in zip(cases, spec):
@@ -100,6 +101,7 @@ def run(ctx: Ctx) -> None:
                     break
             items.append(d)
         lcases.append((items, rng.randrange(0, 4), rng.choice(EOLS)))
+    lcases = ctx.select("TagList.get_html_string (validly nested items)", lcases)
     lspec = run_model([[6, [to_sx(d) for d in items], i, S(eol)] for items, i, eol in lcases])
     lspec_of = {id(c): unS(m[1]) for c, m in zip(lcases, lspec)}
 
@@ -129,7 +131,6 @@ def run(ctx: Ctx) -> None:
 
 
 def replay(ctx: Ctx, path: str) -> None:
-    import json
-    with open(path) as f:
-        print(json.dumps(json.load(f), indent=1)[:3000])
+    """re-run the recorded input (the step that reported it runs that single case)"""
+    ctx.load_replay(path)
     run(ctx)
